@@ -1207,7 +1207,8 @@ def aliasing_cases(rng):
 
             def mk(expr, axes, sz):
                 leaves = {lid: dict(axes=ax, data=gen_data(rng, tuple(s_ for _, s_ in ax))) for lid, ax in axes.items()}
-                full = dict({0: 1, 1: 1, 2: 1, 3: 1}, **sz)
+                full = {0: 1, 1: 1, 2: 1, 3: 1}
+                full.update(sz)
                 for ax in axes.values():
                     for nm, s_ in ax:
                         full.setdefault(nm, s_)
